@@ -6,14 +6,15 @@ set -u
 HERE=$(cd "$(dirname "$0")/.." && pwd)
 VB=${VERIF_BUILD:-$HERE/build}
 variant=$1; shift
-D=$("$HERE/tools/build.sh" "$variant" "$@" | tail -1); rc=${PIPESTATUS[0]}
+out=$("$HERE/tools/build.sh" "$variant" "$@"); rc=$?; D=$(echo "$out" | tail -1)
 if [ "$rc" -ne 0 ]; then echo "$D"; exit "$rc"; fi
 case "$variant" in
-  *asan*|cfg-*) flavor=asan; FF="-fsanitize=address,undefined -fno-sanitize=alignment -fno-sanitize-recover=all -fno-omit-frame-pointer -O1 -g" ;;
-  tsan)         flavor=tsan; FF="-fsanitize=thread -fno-omit-frame-pointer -O1 -g" ;;
-  *)            flavor=plain; FF="-O2 -g" ;;
+  # the harness itself is compiled with ASan only (the library carries UBSan); the UBSan runtime is linked in
+  *asan*|cfg-*) flavor=asan; FF="-fsanitize=address -fno-omit-frame-pointer -O1 -g"; LF="-fsanitize=address,undefined" ;;
+  tsan)         flavor=tsan; FF="-fsanitize=thread -fno-omit-frame-pointer -O1 -g"; LF="" ;;
+  *)            flavor=plain; FF="-O2 -g"; LF="" ;;
 esac
-if [ "$variant" != "${variant#cfg-}" ] && [ -n "${VERIF_CFLAGS:-}" ] && ! echo "${VERIF_CFLAGS}" | grep -q fsanitize; then flavor=plain; FF="-O2 -g"; fi
+if [ "$variant" != "${variant#cfg-}" ] && [ -n "${VERIF_CFLAGS:-}" ] && ! echo "${VERIF_CFLAGS}" | grep -q fsanitize; then flavor=plain; FF="-O2 -g"; LF=""; fi
 srcsig=$(cat "$HERE"/sim/*.cpp "$HERE"/sim/*.hpp "$HERE"/sim/*.h "$HERE"/sim/seams.c "$HERE"/model/model.cpp "$HERE"/model/model.hpp | sha256sum | cut -c1-12)
 OD="$VB/simobj/$flavor-$srcsig"
 mkdir -p "$VB/simobj"
@@ -39,7 +40,7 @@ BIN="$D/sim"
 if [ ! -x "$BIN" ] || [ "$(cat "$D/sim.sig" 2>/dev/null)" != "$srcsig" ]; then
   WRAPS="malloc calloc realloc aligned_alloc free getrandom cpu_supports KeccakP1600_Permute_24rounds KeccakP1600times4_PermuteAll_24rounds KeccakF1600_FastLoop_Absorb KeccakF1600times4_FastLoop_Absorb Keccak_HashInitialize Keccak_HashUpdate Keccak_HashFinal Keccak_HashSqueeze Keccak_HashInitializetimes4 Keccak_HashUpdatetimes4 Keccak_HashFinaltimes4 Keccak_HashSqueezetimes4"
   W=""; for w in $WRAPS; do W="$W -Wl,--wrap=$w"; done
-  g++ $FF -no-pie "$OD"/*.o -Wl,--whole-archive "$D/b/static/libpicnic.a" "$D/libnist.a" -Wl,--no-whole-archive $W -lpthread -o "$BIN.tmp" 2> "$D/simlink.log" \
+  g++ $FF $LF -no-pie "$OD"/*.o -Wl,--whole-archive "$D/b/static/libpicnic.a" "$D/libnist.a" -Wl,--no-whole-archive $W -lpthread -o "$BIN.tmp" 2> "$D/simlink.log" \
     || { cat "$D/simlink.log" >&2; echo "simulator link failed" >&2; exit 5; }
   mv "$BIN.tmp" "$BIN"; echo "$srcsig" > "$D/sim.sig"
 fi
